@@ -46,6 +46,7 @@ type Mode struct {
 	// schedule's trace; elsewhere the non-mmap loader, plus the mmap loader whenever an error path ran)
 	AllSegPrefixes bool
 	Conformance    bool // replay every distinct trace on the real directory
+	WriterOpen     bool // C03: additionally open a WRITER on every image (crashfs copy) and compare
 	CumulativeAck  bool // C14: an acknowledgement covers every batch applied before it (single client)
 }
 
@@ -380,6 +381,18 @@ func judgeImage(name string, sc Scenario, mode Mode, img *crashfs.Image, acc []a
 	if content != "" {
 		res.Flags["recovered_nonempty"] = true
 	}
+	if mode.WriterOpen {
+		wk := fmt.Sprintf("w|%x", img.Hash[:16])
+		f, ok := depth2Cache[wk]
+		if !ok {
+			f = openWriterOn(sc, img, content)
+			depth2Cache[wk] = f
+			res.Counts["writer_opens_on_images"]++
+		}
+		if f != "" {
+			return f, "writer-open"
+		}
+	}
 	if mode.Depth >= 2 && len(sc.Continuation) > 0 && img.Structural {
 		dk := fmt.Sprintf("%s|%x", name, img.Hash[:16])
 		f, ok := depth2Cache[dk]
@@ -494,4 +507,49 @@ func continueAndCrash(sc Scenario, mode Mode, img *crashfs.Image, recovered stri
 // DirOf is a helper for checks that need a plain FS config.
 func DirOf(path string) bluge.Config {
 	return bluge.DefaultConfigWithDirectory(func() index.Directory { return index.NewFileSystemDirectory(path) })
+}
+
+// openWriterOn opens a writer on a copy of the image (OpenWriter walks the
+// snapshots oldest to newest, informs the deletion policy and cleans up,
+// unlike OpenReader) and compares what it shows with what OpenReader recovered.
+func openWriterOn(sc Scenario, img *crashfs.Image, recovered string) string {
+	dir := crashfs.NewFrom(img.Files)
+	var fail string
+	s := verifmc.Run(verifmc.Options{MaxSteps: 200000}, func() {
+		w, err := bluge.OpenWriter(harness.Config(dir, harness.Opts{Retain: sc.Opts.Retain}))
+		if err != nil {
+			fail = "a writer cannot be opened on a directory that OpenReader opens: " + err.Error()
+			verifmc.Exit()
+		}
+		r, err := w.Reader()
+		if err != nil {
+			fail = "reader: " + err.Error()
+			verifmc.Exit()
+		}
+		c, err := harness.Observe(r)
+		_ = r.Close()
+		if err != nil {
+			fail = "the recovered writer cannot be read: " + err.Error()
+		} else if c != recovered {
+			fail = fmt.Sprintf("OpenWriter recovered {%s} but OpenReader recovered {%s} from the same directory [%s]", c, recovered, fileList(img.Files))
+		}
+		if err := w.Close(); err != nil && fail == "" {
+			fail = "close of the recovered writer: " + err.Error()
+		}
+	})
+	if fail != "" {
+		return fail
+	}
+	if s.Failure != "" {
+		return "opening a writer on the image failed: " + s.Failure + "\n" + s.Stack
+	}
+	if len(dir.Problems) > 0 {
+		return "storage discipline while opening a writer on the image: " + strings.Join(dir.Problems, "; ")
+	}
+	// the clean-up on open must leave the directory openable with the same content
+	o := recovery.OpenFS(dir.Files, true)
+	if !o.Opened || o.Content != recovered {
+		return fmt.Sprintf("after a writer was opened and closed on the image, the directory recovers as {%s} (opened=%v %s%s), expected {%s}", o.Content, o.Opened, o.Err, o.Panic, recovered)
+	}
+	return ""
 }
